@@ -232,12 +232,13 @@ Definition a_text (s : str) (a : ast) : ast := mkA (rev s ++ a_cur a) (a_out a).
 Definition a_lit (ws : str) (a : ast) : ast := mkA (rev ws ++ a_cur a) (a_out a).
 Definition a_rstrip (a : ast) : ast := mkA (drop_while is_space (a_cur a)) (a_out a).
 Definition a_mark (tk : xtok) (a : ast) : ast := mkA [] (tk :: flush (a_cur a) (a_out a)).
-Definition a_close (a : ast) : ast := a_lit (lit " ") (a_mark (TkClose (lit "span")) (a_rstrip a)).
+Definition a_close (a : ast) : ast := a_mark (TkClose (lit "span")) a.
+Definition a_close_sp (a : ast) : ast := a_lit (lit " ") (a_mark (TkClose (lit "span")) (a_rstrip a)).
 Definition a_br (a : ast) : ast := a_lit ([10] ++ lit "    ") (a_mark (TkEmpty (lit "br") []) (a_rstrip a)).
 
 (* sfx = what follows every text node ("" for DFXP, " " for legacy DFXP); atok st = the attributes of the span a
    start node opens, None when it opens none *)
-Definition abs_step (sfx : str) (atok : style -> option (list (str * str))) (acc : ast * bool) (n : node) : ast * bool :=
+Definition abs_step (sfx : str) (acl : ast -> ast) (atok : style -> option (list (str * str))) (acc : ast * bool) (n : node) : ast * bool :=
   let (a, open) := acc in
   match n with
   | NText s => (a_lit sfx (a_text s a), open)
@@ -245,13 +246,13 @@ Definition abs_step (sfx : str) (atok : style -> option (list (str * str))) (acc
   | NStyle true st =>
       match atok st with
       | None => (a, open)
-      | Some attrs => (a_mark (TkOpen (lit "span") attrs) (if open then a_close a else a), true)
+      | Some attrs => (a_mark (TkOpen (lit "span") attrs) (if open then acl a else a), true)
       end
-  | NStyle false _ => if open then (a_close a, false) else (a, open)
+  | NStyle false _ => if open then (acl a, false) else (a, open)
   end.
-Definition abs_run (sfx : str) atok (ns : list node) : ast * bool := fold_left (abs_step sfx atok) ns (mkA [] [], false).
-Definition abs_tokens (sfx : str) atok (ns : list node) : list xtok :=
-  let a := a_rstrip (fst (abs_run sfx atok ns)) in rev (flush (a_cur a) (a_out a)).
+Definition abs_run (sfx : str) acl atok (ns : list node) : ast * bool := fold_left (abs_step sfx acl atok) ns (mkA [] [], false).
+Definition abs_tokens (sfx : str) acl atok (ns : list node) : list xtok :=
+  let a := a_rstrip (fst (abs_run sfx acl atok ns)) in rev (flush (a_cur a) (a_out a)).
 
 (* the string writers, generically: DFXPWriter (sfx = "", extra), LegacyDFXPWriter (sfx = " ") *)
 Definition gstep (sfx : str) (astr : style -> str) (acc : str * bool) (n : node) : str * bool :=
@@ -264,8 +265,8 @@ Definition gstep (sfx : str) (astr : style -> str) (acc : str * bool) (n : node)
 
 Lemma dfxp_step_gstep : forall extra acc n, dfxp_step extra acc n = gstep [] (fun st => dfxp_style_attrs st ++ extra) acc n.
 Proof. intros extra [line open] [s| |start st]; cbn [dfxp_step gstep]; try reflexivity. rewrite app_nil_r. reflexivity. Qed.
-Lemma legacy_step_gstep : forall acc n, legacy_step acc n = gstep (lit " ") dfxp_style_attrs acc n.
-Proof. intros [line open] [s| |start st]; reflexivity. Qed.
+Lemma legacy_step_gstep : forall acc n, legacy_step acc n = gstep [] dfxp_style_attrs acc n.
+Proof. intros [line open] [s| |start st]; cbn [legacy_step gstep]; try reflexivity. rewrite app_nil_r. reflexivity. Qed.
 
 (* agreement of the attribute text with the attribute list, for the styles of the domain *)
 Definition attrs_agree (dom : style -> bool) (astr : style -> str) (atok : style -> option (list (str * str))) : Prop :=
@@ -284,16 +285,19 @@ Fixpoint nodes_ok (dom : style -> bool) (ns : list node) : bool :=
   end.
 
 Lemma Rel_close : forall L a, Rel L a -> Rel (close_span L) (a_close a).
+Proof. intros L a H. unfold close_span, a_close. apply (Rel_mark _ a); [exact H|exact markup_close]. Qed.
+
+Lemma Rel_close_sp : forall L a, Rel L a -> Rel (close_span_sp L) (a_close_sp a).
 Proof.
-  intros L a H. unfold close_span, a_close. change (lit "</span> ") with (lit "</span>" ++ lit " ").
+  intros L a H. unfold close_span_sp, a_close_sp. change (lit "</span> ") with (lit "</span>" ++ lit " ").
   rewrite app_assoc. apply (Rel_lit _ (a_mark (TkClose (lit "span")) (a_rstrip a))); [|reflexivity].
   apply (Rel_mark _ (a_rstrip a)); [|exact markup_close]. apply Rel_rstrip. exact H.
 Qed.
 
 Lemma sim_step : forall sfx dom astr atok, forallb lit_space sfx = true -> attrs_agree dom astr atok ->
   forall n L a open, Rel L a -> nodes_ok dom [n] = true ->
-  Rel (fst (gstep sfx astr (L, open) n)) (fst (abs_step sfx atok (a, open) n)) /\
-  snd (gstep sfx astr (L, open) n) = snd (abs_step sfx atok (a, open) n).
+  Rel (fst (gstep sfx astr (L, open) n)) (fst (abs_step sfx a_close atok (a, open) n)) /\
+  snd (gstep sfx astr (L, open) n) = snd (abs_step sfx a_close atok (a, open) n).
 Proof.
   intros sfx dom astr atok Hsfx Hag n L a open HR Hn.
   destruct n as [s| |start st]; cbn [nodes_ok] in Hn; try rewrite andb_true_r in Hn; cbn [gstep abs_step fst snd].
@@ -313,8 +317,8 @@ Qed.
 
 Lemma sim_run : forall sfx dom astr atok, forallb lit_space sfx = true -> attrs_agree dom astr atok ->
   forall ns L a open, Rel L a -> nodes_ok dom ns = true ->
-  Rel (fst (fold_left (gstep sfx astr) ns (L, open))) (fst (fold_left (abs_step sfx atok) ns (a, open))) /\
-  snd (fold_left (gstep sfx astr) ns (L, open)) = snd (fold_left (abs_step sfx atok) ns (a, open)).
+  Rel (fst (fold_left (gstep sfx astr) ns (L, open))) (fst (fold_left (abs_step sfx a_close atok) ns (a, open))) /\
+  snd (fold_left (gstep sfx astr) ns (L, open)) = snd (fold_left (abs_step sfx a_close atok) ns (a, open)).
 Proof.
   intros sfx dom astr atok Hsfx Hag. induction ns as [|n ns IH]; intros L a open HR Hn; [split; [exact HR|reflexivity]|].
   cbn [fold_left].
@@ -325,14 +329,14 @@ Proof.
     - apply andb_true_iff in Hn. destruct Hn as [H1 H2]. rewrite H1. split; [reflexivity|exact H2]. }
   destruct Hn1 as [Hn1 Hns].
   destruct (sim_step sfx dom astr atok Hsfx Hag n L a open HR Hn1) as [HR1 Ho].
-  destruct (gstep sfx astr (L, open) n) as [L1 o1]. destruct (abs_step sfx atok (a, open) n) as [a1 o2].
+  destruct (gstep sfx astr (L, open) n) as [L1 o1]. destruct (abs_step sfx a_close atok (a, open) n) as [a1 o2].
   cbn [fst snd] in *. subst o2. apply IH; assumption.
 Qed.
 
 (* the payload, read by the strict tokenizer, is the abstract token list *)
 Theorem payload_tokens : forall sfx dom astr atok ns, forallb lit_space sfx = true -> attrs_agree dom astr atok ->
   nodes_ok dom ns = true ->
-  xtokens (rstrip (fst (fold_left (gstep sfx astr) ns ([], false)))) = Some (abs_tokens sfx atok ns).
+  xtokens (rstrip (fst (fold_left (gstep sfx astr) ns ([], false)))) = Some (abs_tokens sfx a_close atok ns).
 Proof.
   intros sfx dom astr atok ns Hsfx Hag Hn.
   destruct (sim_run sfx dom astr atok Hsfx Hag ns [] (mkA [] []) false Rel_init Hn) as [HR _].
@@ -368,7 +372,7 @@ Proof. intros A B f g l. induction l as [|y l IH]; intros a H; [reflexivity|]. c
 
 (* DFXPWriter (region = false) and SinglePositioningDFXPWriter (region = true) *)
 Theorem dfxp_payload_tokens : forall region ns, nodes_ok plain_style ns = true ->
-  xtokens (dfxp_payload (extra_of region) ns) = Some (abs_tokens [] (dfxp_atok region) ns).
+  xtokens (dfxp_payload (extra_of region) ns) = Some (abs_tokens [] a_close (dfxp_atok region) ns).
 Proof.
   intros region ns H. unfold dfxp_payload, dfxp_run.
   rewrite (fold_left_ext2 _ _ ns _ (dfxp_step_gstep (extra_of region))).
@@ -376,19 +380,19 @@ Proof.
 Qed.
 
 Theorem legacy_payload_tokens : forall ns, nodes_ok plain_style ns = true ->
-  xtokens (legacy_payload ns) = Some (abs_tokens (lit " ") (dfxp_atok false) ns).
+  xtokens (legacy_payload ns) = Some (abs_tokens [] a_close (dfxp_atok false) ns).
 Proof.
   intros ns H. unfold legacy_payload, legacy_run. rewrite (fold_left_ext2 _ _ ns _ legacy_step_gstep).
-  apply (payload_tokens (lit " ") plain_style dfxp_style_attrs _ ns eq_refl); [|exact H].
+  apply (payload_tokens [] plain_style dfxp_style_attrs _ ns eq_refl); [|exact H].
   intros st Hst. pose proof (dfxp_attrs_agree false st Hst) as Q. cbn [extra_of] in Q. rewrite app_nil_r in Q. exact Q.
 Qed.
 
 Corollary dfxp_payload_parse : forall region ns, nodes_ok plain_style ns = true ->
-  content_parse (dfxp_payload (extra_of region) ns) = xbuild (abs_tokens [] (dfxp_atok region) ns) [] [].
+  content_parse (dfxp_payload (extra_of region) ns) = xbuild (abs_tokens [] a_close (dfxp_atok region) ns) [] [].
 Proof. intros. unfold content_parse. rewrite dfxp_payload_tokens by assumption. reflexivity. Qed.
 
 Corollary legacy_payload_parse : forall ns, nodes_ok plain_style ns = true ->
-  content_parse (legacy_payload ns) = xbuild (abs_tokens (lit " ") (dfxp_atok false) ns) [] [].
+  content_parse (legacy_payload ns) = xbuild (abs_tokens [] a_close (dfxp_atok false) ns) [] [].
 Proof. intros. unfold content_parse. rewrite legacy_payload_tokens by assumption. reflexivity. Qed.
 
 (* ---- SAMIWriter ------------------------------------------------------------------------------------------------ *)
@@ -401,12 +405,12 @@ Definition sami_abs_step (acc : ast * bool) (n : node) : ast * bool :=
   | NText s => (a_lit (lit " ") (a_text s a), open)
   | NBreak => (a_br a, open)
   | NStyle true st =>
-      let a1 := if open then a_close a else a in
+      let a1 := if open then a_close_sp a else a in
       match sami_atok st with
       | None => (a1, open)
       | Some attrs => (a_mark (TkOpen (lit "span") attrs) a1, true)
       end
-  | NStyle false _ => if open then (a_close a, false) else (a, open)
+  | NStyle false _ => if open then (a_close_sp a, false) else (a, open)
   end.
 Definition sami_abs_tokens (ns : list node) : list xtok :=
   let a := a_rstrip (fst (fold_left sami_abs_step ns (mkA [] [], false))) in rev (flush (a_cur a) (a_out a)).
@@ -441,13 +445,13 @@ Proof.
     apply (Rel_lit _ (a_mark (TkEmpty (lit "br") []) (a_rstrip a))); [|reflexivity].
     apply (Rel_mark _ (a_rstrip a)); [|exact markup_br]. apply Rel_rstrip. exact HR.
   - apply andb_true_iff in Hn. destruct Hn as [Hst Hns].
-    assert (HR1 : Rel (if open then close_span L else L) (if open then a_close a else a)).
-    { destruct open; [apply Rel_close; exact HR|exact HR]. }
+    assert (HR1 : Rel (if open then close_span_sp L else L) (if open then a_close_sp a else a)).
+    { destruct open; [apply Rel_close_sp; exact HR|exact HR]. }
     pose proof (sami_markup st Hst) as Hm. unfold sami_atok. destruct (sami_css st) as [|z l] eqn:E.
     + apply IH; [exact HR1|exact Hns].
-    + apply IH; [|exact Hns]. apply (Rel_mark _ (if open then a_close a else a)); [exact HR1|exact Hm].
+    + apply IH; [|exact Hns]. apply (Rel_mark _ (if open then a_close_sp a else a)); [exact HR1|exact Hm].
   - apply andb_true_iff in Hn. destruct Hn as [_ Hns]. destruct open.
-    + apply IH; [apply Rel_close; exact HR|exact Hns].
+    + apply IH; [apply Rel_close_sp; exact HR|exact Hns].
     + apply IH; [exact HR|exact Hns].
 Qed.
 
